@@ -68,6 +68,41 @@ theorem branchesOK_mono (H : HashFn) (w w' : World) (ho : OL w.objs w'.objs) (hh
 
 /-! ### what the start-up load guarantees -/
 
+theorem loadHead_commit (H : HashFn) (w : World) (b id : Bytes) (c : Commit)
+    (h : loadHead H w = some (b, some (id, c))) :
+    commitAt H w id = some c ∧ ∃ raw, aget w.heads b = some raw ∧ readHash raw = some id := by
+  unfold loadHead at h
+  cases hw : w.head with
+  | none => simp [hw] at h
+  | some hd =>
+    simp only [hw] at h
+    cases hp : Head.parse hd with
+    | none => simp [hp] at h
+    | some br =>
+      simp only [hp] at h
+      by_cases hz : List.elem (0 : UInt8) br = true
+      · simp only [hz, if_true] at h; cases h
+      · simp only [hz, Bool.false_eq_true, if_false] at h
+        cases ha : aget w.heads br with
+        | none =>
+          simp only [ha] at h
+          split at h
+          · cases h
+          · injection h with h; injection h with _ h2; cases h2
+        | some raw =>
+          simp only [ha] at h
+          cases hr : readHash raw with
+          | none => simp [hr] at h
+          | some id' =>
+            simp only [hr] at h
+            cases hc' : commitAt H w id' with
+            | none => simp [hc'] at h
+            | some c' =>
+              simp [hc'] at h
+              obtain ⟨h1, h2, h3⟩ := h
+              subst h1; subst h2; subst h3
+              exact ⟨hc', raw, ha, hr⟩
+
 theorem load_headCommit (H : HashFn) (w : World) (l : Loaded) (h : load H w = some l) (id : Bytes) (c : Commit)
     (hc : l.headCommit = some (id, c)) :
     commitAt H w id = some c ∧ ∃ raw, aget w.heads l.ref = some raw ∧ readHash raw = some id := by
@@ -76,26 +111,8 @@ theorem load_headCommit (H : HashFn) (w : World) (l : Loaded) (h : load H w = so
   · rename_i hh _
     injection h with h; subst h
     simp only at hc
-    unfold loadHead at hh
-    split at hh
-    · simp at hh; rw [← hh.2] at hc; simp at hc
-    · split at hh
-      · contradiction
-      · split at hh
-        · simp at hh; rw [← hh.2] at hc; simp at hc
-        · split at hh
-          · contradiction
-          · rename_i b' _ _ raw hraw _ id' hid
-            cases hca : commitAt H w id' with
-            | none => simp [hca] at hh
-            | some c' =>
-              simp [hca] at hh
-              obtain ⟨hb, hcc⟩ := hh
-              rw [← hcc] at hc
-              simp at hc
-              obtain ⟨h1, h2⟩ := hc
-              subst h1; subst h2; subst hb
-              exact ⟨hca, raw, hraw, hid⟩
+    subst hc
+    exact loadHead_commit H w _ id c hh
   · contradiction
 
 /-! ### the branch list that was loaded names files that exist -/
